@@ -95,6 +95,18 @@ func applyEdit(t fsmodel.Tree, e Edit) fsmodel.Tree {
 			return nil
 		}
 		setGroup(n.HL, func(m *fsmodel.Node) { m.Perm ^= 0011 })
+	case "flip-xattr":
+		// extended attributes are not part of an entry's identity: changing only them asks for nothing
+		if n == nil || (n.Kind != fsmodel.File && n.Kind != fsmodel.Dir) {
+			return nil
+		}
+		setGroup(n.HL, func(m *fsmodel.Node) {
+			if len(m.Xattrs) > 0 {
+				m.Xattrs = nil
+			} else {
+				m.Xattrs = map[string]string{"user.edit": "1"}
+			}
+		})
 	case "chmod-suid":
 		if n == nil || n.Kind != fsmodel.File {
 			return nil
@@ -270,7 +282,7 @@ func applyEdit(t fsmodel.Tree, e Edit) fsmodel.Tree {
 }
 
 var editNames = []string{"rewrite-same-size", "rewrite-other-size", "rewrite-big", "touch", "chmod", "chmod-suid", "chown", "chgrp", "delete",
-	"add-file", "add-dir", "rename", "to-dir", "to-file", "to-symlink", "to-symlink-sibling", "retarget", "retarget-same-len", "link-to-prev", "unlink", "renumber", "to-fifo", "delete-with-prefix-siblings", "unlink-rewrite"}
+	"add-file", "add-dir", "rename", "to-dir", "to-file", "to-symlink", "to-symlink-sibling", "retarget", "retarget-same-len", "link-to-prev", "unlink", "renumber", "to-fifo", "delete-with-prefix-siblings", "unlink-rewrite", "flip-xattr"}
 
 // allEdits lists every edit applicable to the tree (at existing paths, and at
 // a few free names for additions).
@@ -332,6 +344,10 @@ func baseTrees() []fsmodel.Tree {
 	trees = append(trees, fsmodel.Tree{{Path: "cur", Kind: fsmodel.Symlink, Perm: 0777, Mtime: fsmodel.T0 + 1, Link: "real"}, d("real", 2), f("real/x", 34, 5, 3), f("z", 35, 2, 4)})
 	// a directory and neighbours whose names merely start with its name, with and without entries in between
 	trees = append(trees, fsmodel.Tree{d("build", 1), f("build/out", 41, 4, 2), f("build.log", 42, 5, 3), f("build_id", 43, 6, 4), d("builds", 5), f("builds/old", 44, 7, 6), f("zz", 45, 2, 7)})
+	// entries that carry extended attributes; device nodes with numbers above 255
+	trees = append(trees, fsmodel.Tree{{Path: "x", Kind: fsmodel.Dir, Perm: 0755, Mtime: T + 1, Xattrs: map[string]string{"user.a": "dir"}},
+		{Path: "x/f", Kind: fsmodel.File, Perm: 0644, Mtime: T + 2, Data: fsmodel.Content(51, 6), Xattrs: map[string]string{"user.b": "file", "user.c": ""}}, f("y", 52, 3, 3),
+		{Path: "usb", Kind: fsmodel.Char, Perm: 0664, Mtime: T + 4, Major: 189, Minor: 260}, {Path: "loop", Kind: fsmodel.Block, Perm: 0660, Mtime: T + 5, Major: 7, Minor: 300}})
 	trees[3][0].HL = 1
 	for i := range trees {
 		trees[i].Sort()
